@@ -41,7 +41,7 @@ def mutate(x, depth=0):
         x["MUTATED"] = 1
 
 
-def snapshot(p):
+def snapshot(p, extra=None):
     from vlib import fl
 
     def tag(v):
@@ -59,6 +59,18 @@ def snapshot(p):
     snap = [decpost.observe_tables(p), tag(p.dict_aliases()), tag(p.dict_charge_conjugates()), tag(p.dict_definitions()),
             tag(p.dict_decays2copy()), tag(p.list_charge_conjugate_decays()), tag(p.dict_pythia_definitions()),
             tag(p.list_lineshapePW_definitions()), int(p.global_photos_flag())]
+    # the answers of the table queries themselves, for the mothers given
+    def guarded(fn):
+        try:
+            return fn()
+        except Exception as e:
+            return {"err": type(e).__name__}
+    for m in (extra or {}).get("modes", []):
+        snap.append(["modes", m, guarded(lambda: tag(p.list_decay_modes(m)))])
+    for m in (extra or {}).get("chains", []):
+        snap.append(["chains", m, guarded(lambda: json.loads(json.dumps(p.build_decay_chains(m), default=str)))])
+    for m in (extra or {}).get("expand", []):
+        snap.append(["expand", m, guarded(lambda: p.expand_decay_modes(m))])
     return snap
 
 
@@ -73,8 +85,9 @@ def impl_main(mode, fin, fout):
         except Exception as e:
             out.append({"err": "parse:" + type(e).__name__} if mode != "oracle" else [])
             continue
-        fresh = snapshot(decpost.parse(c["text"])[0])
-        first = snapshot(p)
+        extra = c.get("snap_extra")
+        fresh = snapshot(decpost.parse(c["text"])[0], extra)
+        first = snapshot(p, extra)
         if first != fresh:
             viol.append("two parses of the same text differ")
         # (b) separation of the object graph
@@ -91,6 +104,16 @@ def impl_main(mode, fin, fout):
                     stack.extend(n.children)
         if shared:
             viol.append("a Token/Tree object is reachable from two tables (or twice)")
+        # a copied table is usable as the source of a later CDecay
+        st = c["stmts"]
+        names_now = [t.children[0].children[0].value for t in p._parsed_decays]
+        for s1 in st:
+            if s1[0] == "CopyDecay" and s1[1] in names_now:
+                for s2 in st:
+                    if s2[0] == "ChargeConj" and s1[1] in (s2[1], s2[2]):
+                        x = s2[2] if s2[1] == s1[1] else s2[1]
+                        if any(s3[0] == "CDecay" and s3[1] == x for s3 in st) and x not in names_now:
+                            viol.append("a copied table was not usable as the source of a CDecay")
         # (a) history
         steps = []
         for op, arg in c["ops"]:
@@ -144,10 +167,10 @@ def impl_main(mode, fin, fout):
             except Exception as e:
                 steps.append({"err": type(e).__name__})
                 continue
-            s = snapshot(p)
+            s = snapshot(p, extra)
             steps.append(s == first)
             if s != fresh:
-                viol.append(f"answers changed after {op}")
+                viol.append("answers changed after a query (" + op + ")")
                 break
         # writing to every token of derived tables leaves the sources unchanged
         try:
@@ -198,7 +221,9 @@ def gen_cases(rng, tier):
             expand_ok = {}
         else:
             expand_ok = {m: (c10.count_paths(stmts, m) or 0) <= 300 for m in mothers}
-        cases.append({"stmts": stmts, "text": b["text"], "ops": ops, "derived": derived, "expand_ok": expand_ok})
+        ok_m = [m for m in mothers if expand_ok.get(m)]
+        snap_extra = {"modes": mothers[:3], "chains": ok_m[:2], "expand": ok_m[:2]}
+        cases.append({"stmts": stmts, "text": b["text"], "ops": ops, "derived": derived, "expand_ok": expand_ok, "snap_extra": snap_extra})
     return cases
 
 
@@ -254,7 +279,7 @@ def main():
                                 "histories_changing_snapshot": len(hist_bad),
                                 "files_with_derived_tables": sum(1 for c in cases if c["derived"])}
     vlib.std_failure(ck, "Props/C08.v", cases, diffs + [i for i in hist_bad if i not in diffs], impl_tables, model, hits, "py/c08.py",
-                     sig_of=lambda c, v: "oracle:" + v)
+                     sig_of=lambda c, v: "oracle:" + v.split(" (")[0])
     sys.exit(ck.finish(level="proof"))
 
 
